@@ -69,9 +69,7 @@ From Coq Require Import Floats.
 From Flocq Require Import Core BinarySingleNaN PrimFloat.
 From PV Require Import proofs.FloatFacts proofs.WrapFloat.
 From PV Require Import proofs.PackingFacts.
-From PV Require Import gen.GenFns proofs.SourceFacts.
-From PV Require Import model.Iter proofs.SearchFacts.
-From PV Require Import gen.GenFns proofs.SourceFacts proofs.SearchFacts.
+From PV Require Import gen.GenFns model.Iter model.Pipeline proofs.ListLemmas proofs.SrcCell proofs.SrcState.
 
 Theorem C15_F_wrap_range :
   forall x : F, is_finite (Prim2B x) = true -> (Rabs (B2R (Prim2B x)) <= 2251799813685248)%R ->
@@ -110,10 +108,6 @@ Theorem C15_wrap_is_source :
 Proof. exact wrap_is_source. Qed.
 Print Assumptions C15_wrap_is_source.
 
-Theorem C15_source_translated :
-  gen_fns_problem = String.EmptyString.
-Proof. exact source_translated. Qed.
-Print Assumptions C15_source_translated.
 
 
 Theorem C15_positions_is_source :
@@ -128,4 +122,23 @@ Theorem S_state_positions_are_source :
     gen_cartesian_positions NN st = cartesian_positions NN st.
 Proof. exact state_positions_are_source. Qed.
 Print Assumptions S_state_positions_are_source.
+
+
+Theorem C15_cell_source_translated :
+  translated_gen_wrap = true /\ translated_gen_periodic_images = true /\
+    translated_gen_positions = true /\ translated_gen_cell_a = true /\ translated_gen_cell_b =
+    true /\ translated_gen_cell_area = true /\ translated_gen_to_cartesian = true.
+Proof. exact cell_source_translated. Qed.
+Print Assumptions C15_cell_source_translated.
+
+Theorem C15_state_source_translated :
+  translated_gen_positions = true /\ translated_gen_total_shapes = true /\
+    translated_gen_relative_positions = true /\ translated_gen_cartesian_positions = true /\
+    translated_gen_lj_total_shapes = true /\ translated_gen_lj_relative_positions = true /\
+    translated_gen_lj_cartesian_positions = true /\ translated_gen_density_precheck = true /\
+    translated_gen_shells = true /\ translated_gen_radius_sq = true /\
+    translated_gen_check_intersection = true /\ translated_gen_packed_score = true /\
+    translated_gen_lj_score = true /\ translated_gen_lj_final = true.
+Proof. exact state_source_translated. Qed.
+Print Assumptions C15_state_source_translated.
 
